@@ -17,6 +17,7 @@ functions following the recursion of the pass: every cursor update `p ↦ p'` mu
 `noWrap_iff`) and every offset stored in an ELF32 field must be `< 2^32`.
 -/
 import ElfioVerif.Lemmas.Layout
+import ElfioVerif.Lemmas.ValidateL
 namespace ElfioVerif.C04
 open ElfioVerif Gen
 
@@ -263,6 +264,115 @@ theorem member_inside (c : Cls) (hdrPhoff : BitVec 64) (phentsize phnum : BitVec
     g'.offset.toNat ≤ s'.offset.toNat ∧ s'.endN ≤ g'.offset.toNat + g'.filesz.toNat :=
   ((layoutSegment_dom false true c hdrPhoff phentsize phnum lay lay' g g' lo hinv hnw hdom h).2.2 hfresh).2.2
     rfl k s' hng hg hs ho
+
+/-! ### writer domain, flat objects: the segments of the saved object
+
+`layoutDomB cov ins` (Lemmas/Layout.lean) demands at every turn of the loop over the ordered
+segments: `segDom cov ins`; no member of the segment has been generated before its step (`segFlat`:
+the member lists of the segments are disjoint and duplicate-free — no nested segments); a segment
+with members is neither the PHDR nor the offset-0 special case.  Segment indices are distinct
+(`save` puts the laid out segments back by index). -/
+
+/-- the final sections and the sections of the layout agree on every header field the layout
+    theorems talk about -/
+theorem save_secs_hdr (o : Obj) (os : OStream) (r : SaveRes) (hdr : Bytes)
+    (hs : save o os = .ok r) (hok : r.ok = true) (hh : o.hdr = some hdr) :
+    ∃ res, layoutOf o hdr = .ok (some res) ∧ r.obj.segs = res.segs ∧ r.obj.curPos = res.shoff ∧
+      r.obj.secs.map hdrOf = res.secs.map hdrOf := by
+  obtain ⟨hdr', res, hh', hl, hsegs, hcur, hsecs⟩ := save_layout o os r hs hok
+  rw [hh] at hh'; simp only [Option.some.injEq] at hh'; subst hh'
+  exact ⟨res, hl, hsegs, hcur, by rw [hsecs, residentForSave_hdr]; simp⟩
+
+/-- **The segments of the saved object** (flat writer-domain objects).  For every segment `g` of the
+    object left by a successful `save`:
+    * `p_memsz ≥ p_filesz`;
+    * if it has members (and `p_align ≤ 2^63`): `p_offset ≡ p_vaddr (mod max(p_align,1))`;
+    * every member `s` that occupies file space is at the same distance from the segment start in
+      file and memory; with `ins`: it lies inside `[p_offset, p_offset + p_filesz)`;
+      with `cov` (excludes F14): `p_memsz` covers every non-NULL member. -/
+theorem save_segments (cov ins : Bool) (o : Obj) (os : OStream) (r : SaveRes) (hdr : Bytes)
+    (hs : save o os = .ok r) (hok : r.ok = true) (hh : o.hdr = some hdr)
+    (hn : o.secs.length < 65536)
+    (h0 : ∀ (i : Nat) (s : SecBuf), o.secs[i]? = some s → s.Occ → s.index ≠ 0)
+    (hnw : layoutNW o hdr = true) (hnd : (o.segs.map (·.index)).Nodup)
+    (hdom : layoutDomB cov ins o hdr = true) (g : Seg) (hg : g ∈ r.obj.segs) :
+    g.filesz.toNat ≤ g.memsz.toNat ∧
+    (g.secs ≠ [] → g.align.toNat ≤ 9223372036854775808 →
+      g.offset.toNat % (max g.align.toNat 1) = g.vaddr.toNat % (max g.align.toNat 1)) ∧
+    (∀ idx ∈ g.secs, ∀ (s : SecBuf), r.obj.secs[idx.toNat]? = some s →
+      (s.Occ → s.offset - g.offset = s.addr - g.vaddr) ∧
+      (ins = true → s.Occ → g.offset.toNat ≤ s.offset.toNat ∧ s.endN ≤ g.offset.toNat + g.filesz.toNat) ∧
+      (cov = true → s.stype ≠ BitVec.ofNat 32 SHT_NULL →
+        (s.addr - g.vaddr).toNat + s.size.toNat ≤ g.memsz.toNat)) := by
+  obtain ⟨res, hl, hsegs, -, he⟩ := save_secs_hdr o os r hdr hs hok hh
+  rw [hsegs] at hg
+  obtain ⟨f1, f2, f3, -⟩ := final_segments cov ins o hdr res hl hnw hn h0 hnd hdom g hg
+  refine ⟨f1, f2, ?_⟩
+  intro idx hidx s hk
+  obtain ⟨s', hs', hhs⟩ := hdrOf_getElem? he idx.toNat s hk
+  obtain ⟨g1, g2, g3⟩ := f3 idx hidx s' hs'
+  have hocc := occ_of_hdrOf hhs
+  simp only [hdrOf, Prod.mk.injEq] at hhs
+  obtain ⟨e1, e2, e3, -, e5, -, -⟩ := hhs
+  unfold SecBuf.endN at *
+  rw [← e1, ← e2, ← e3, ← e5]
+  exact ⟨fun ho => g1 (hocc.1 ho), fun hi ho => g2 hi (hocc.1 ho), g3⟩
+
+/-- **What `validate` needs** (C20): the object left by a successful `save` of a flat writer-domain
+    object whose SHT_NULL-typed sections are empty satisfies `LayoutOk` — file ranges of all
+    non-empty non-NOBITS sections are pairwise disjoint without wrap-around, and the PROGBITS
+    section containing the first file byte of a PT_LOAD segment with file size > 0 is a member of
+    that segment at the same distance in file and memory. -/
+theorem save_layoutOk (o : Obj) (os : OStream) (r : SaveRes) (hdr : Bytes)
+    (hs : save o os = .ok r) (hok : r.ok = true) (hh : o.hdr = some hdr)
+    (hn : o.secs.length < 65536)
+    (h0 : ∀ (i : Nat) (s : SecBuf), o.secs[i]? = some s → s.Occ → s.index ≠ 0)
+    (hnull0 : ∀ s ∈ o.secs, s.stype = BitVec.ofNat 32 SHT_NULL → s.size = 0)
+    (hnw : layoutNW o hdr = true) (hnd : (o.segs.map (·.index)).Nodup)
+    (hdom : layoutDomB false false o hdr = true) : LayoutOk r.obj := by
+  obtain ⟨hin, hdisj, hlt, -⟩ := layout_disjoint o os r hdr hs hok hh hn h0 hnw
+  have hnull : ∀ s ∈ r.obj.secs, s.stype = BitVec.ofNat 32 SHT_NULL → s.size = 0 := by
+    intro s hm he
+    obtain ⟨res, hl, -, -, hmap⟩ := save_secs_hdr o os r hdr hs hok hh
+    obtain ⟨k, hk⟩ := List.getElem?_of_mem hm
+    obtain ⟨s', hs', hhs⟩ := hdrOf_getElem? hmap k s hk
+    obtain ⟨s0, hs0, hm0⟩ := final_orig o hdr res hl hnw hn h0 k s' hs'
+    simp only [hdrOf, Prod.mk.injEq] at hhs
+    rw [← hhs.2.1, hm0.size]
+    apply hnull0 s0 (List.mem_of_getElem? hs0)
+    rw [← hm0.stype, hhs.2.2.1]; exact he
+  have hocc : ∀ s ∈ r.obj.secs, s.stype ≠ BitVec.ofNat 32 SHT_NOBITS → 0 < s.size.toNat → s.Occ := by
+    intro s hm h1 h2
+    refine ⟨h1, fun e => ?_, fun e => ?_⟩
+    · rw [hnull s hm e] at h2; exact absurd h2 (by decide)
+    · rw [e] at h2; exact absurd h2 (by decide)
+  have hsh := r.obj.curPos.isLt
+  refine ⟨?_, ?_, ?_⟩
+  · intro s hm h1 h2
+    obtain ⟨k, hk⟩ := List.getElem?_of_mem hm
+    have := (hin k s hk (hocc s hm h1 h2)).2
+    unfold SecBuf.endN at this; omega
+  · intro i j a b hij hi hj hta htb hsa hsb _ _
+    have ha := hocc a (List.mem_of_getElem? hi) hta hsa
+    have hb := hocc b (List.mem_of_getElem? hj) htb hsb
+    have := hdisj i j a b (by omega) hi hj ha hb
+    unfold RangesIntersect SecBuf.endN at *
+    omega
+  · intro g hg hload hfs s hm hpb h1 h2
+    obtain ⟨res, hl, hsegs, -, he⟩ := save_secs_hdr o os r hdr hs hok hh
+    rw [hsegs] at hg
+    obtain ⟨-, -, -, f4⟩ := final_segments false false o hdr res hl hnw hn h0 hnd hdom g hg
+    obtain ⟨k, hk⟩ := List.getElem?_of_mem hm
+    obtain ⟨s', hs', hhs⟩ := hdrOf_getElem? he k s hk
+    have hso : s.Occ := hocc s hm (by rw [hpb]; decide) (by omega)
+    have hph : lseg_is_phdr g.stype (BitVec.ofNat 16 g.secs.length) = false := by
+      rw [hload]; simp [lseg_is_phdr]; intro hc; exact absurd hc (by decide)
+    have hocc' := occ_of_hdrOf hhs
+    simp only [hdrOf, Prod.mk.injEq] at hhs
+    obtain ⟨e1, e2, -, -, e5, -, -⟩ := hhs
+    have := f4 hfs hph k s' hs' (hocc'.1 hso) (by rw [e1]; exact h1) (by unfold SecBuf.endN; rw [e1, e2]; exact h2)
+    rw [e1, e5] at this
+    bv_omega
 
 /-! ### concrete objects: non-vacuity, and the F14 witness -/
 
